@@ -156,21 +156,35 @@ def judge(pid, traces, verdicts):
         if not vs:
             judged_events += n
             continue
-        l = min(vs)
-        judged_events += l
-        ev = tr["events"][l - 1]
-        tags = slot_tags(tr["events"], l - 1)
-        props = {}
-        for v in vs[l]:
-            for p in attribute(ev, v["cl"], tags, tr):
-                props.setdefault(p, []).append(v)
-        if pid in props:
-            cls = sorted({v["cl"] for v in props[pid]})
-            devs = sorted({v.get("dev", "") for v in props[pid]})
-            findings.append(Finding(pid, tr, l, cls, devs, vs[l]))
-        else:
+        # Walk the failing events in order.  The first one that is evidence against this property is the finding.
+        # A foreign failure that corrupts no observable state (only the alias relation / object identity is wrong)
+        # does not end the trace: the states that follow are still states the public API reached, and the property
+        # is judged on them.  Any other foreign failure cuts the trace (the pool no longer means what the
+        # specification assumes).
+        done = False
+        for l in sorted(vs):
+            ev = tr["events"][l - 1]
+            tags = slot_tags(tr["events"], l - 1)
+            props = {}
+            for v in vs[l]:
+                for p in attribute(ev, v["cl"], tags, tr):
+                    props.setdefault(p, []).append(v)
+            if pid in props:
+                cls = sorted({v["cl"] for v in props[pid]})
+                devs = sorted({v.get("dev", "") for v in props[pid]})
+                findings.append(Finding(pid, tr, l, cls, devs, vs[l]))
+                judged_events += l
+                done = True
+                break
+            if {v["cl"] for v in vs[l]} <= {"noshare", "identity"}:
+                continue
             key = ",".join(sorted(props)) or "machinery:" + ",".join(sorted({v["cl"] for v in vs[l]}))
             foreign[key] = foreign.get(key, 0) + 1
+            judged_events += l
+            done = True
+            break
+        if not done:
+            judged_events += n
     return {"findings": findings, "foreign": foreign, "judged_events": judged_events, "judged_traces": len(traces)}
 
 
